@@ -28,8 +28,9 @@ META = dict(
                 'and through XML loading, and the property is evaluated directly on the real arrays, which is what yields replays.'),
     level_note=('Trusted: Lean kernel; axioms propext/Quot.sound/Classical.choice only; the hand-written model '
                 'Pyc/Model/Validate.lean and the generator/canonicaliser in props/c09.py; numpy reshape/max/fancy indexing and the XML '
-                'parser are modelled, not verified. For an empty index stream pycollada exposes None / () for every array and checks '
-                'nothing (mirrored: the arity and range clauses of reject_complete assume a non-empty stream). Negative indices, '
+                'parser are modelled, not verified. For an empty index stream pycollada exposes zero-row views and deliberately validates '
+                'nothing (collada/tests test_collada_empty_triangles loads an empty <triangles> over a source of another format), so the '
+                'arity clauses of accept_sound / reject_complete assume a non-empty stream. Negative indices, '
                 'sources with zero components, inputs without a VERTEX input and dangling references are outside the quantifier '
                 '(unsigned streams, 1-8 well-formed inputs).'),
     technique='Lean 4 proof about a model of the validating constructors + differential correspondence through Geometry.create* and XML loading + direct array oracle',
@@ -460,9 +461,21 @@ def oracle(case, ans, prim):
     for sem, k, s, i in pairs:
         got[(sem, k)] = (s, i)
     if not stream:
-        for (sem, k), (s, i) in got.items():
-            if s is not None or i is not None:
-                return ('empty', 'not-None', 'empty %s exposes a %s array' % (kind, sem))
+        # an empty primitive is not validated; whatever it exposes must still be a zero-row array
+        # of the documented shape that can be used to select from its source
+        w = WIDTH[kind]
+        shape = (0, w) if w > 1 else (0,)
+        for (sem, k), (s, i) in sorted(got.items()):
+            if s is None and i is None:
+                continue
+            if s is None or i is None:
+                return ('empty', 'half-None', 'empty %s exposes only one of %s source / index' % (kind, sem))
+            if tuple(i.shape) != shape:
+                return ('shape:' + sem, 'wrong-shape', 'empty %s: %s index has shape %s, documented %s' % (kind, sem, tuple(i.shape), shape))
+            try:
+                s[i]
+            except Exception as e:   # noqa
+                return ('select:' + sem, type(e).__name__, 'empty %s: %s[%s_index] raises %s' % (kind, sem.lower(), sem.lower(), type(e).__name__))
         return None
     want = {(sem, k): (col, rows) for sem, k, col, rows in cols}
     if set(want) != set(k for k, v in got.items() if v[0] is not None or v[1] is not None):
